@@ -348,7 +348,9 @@ func (e *Engine) Render(ctx context.Context, templateName string, data interface
 	if atomic.LoadInt32(&e.templatesLoaded) == 0 && !e.Debug {
 		verifYield("render:before-load")
 		_, spanLoad := trace.StartSpan(ctx, "pug/loadAllTemplates")
-		if err := e.LoadTemplates(""); err != nil {
+		// several first renders may arrive together: the ones that waited for the lock find the set already loaded by
+		// the winner ("Can not preload all templates again") - that is not a failure of this render
+		if err := e.LoadTemplates(""); err != nil && atomic.LoadInt32(&e.templatesLoaded) == 0 {
 			spanLoad.End()
 			return nil, err
 		}
